@@ -1,5 +1,5 @@
 # replay of a bounded stand-in violation (C11): re-run native/c11_compilers.py
 import sys
-print("gaussian_merge n=3 gates=[('Rgate', (2,)), ('BSgate', (1, 2)), ('Rgate', (2,)), ('BSgate', (1, 0)), ('Kgate', (2,)), ('Dgate', (1,)), ('Sgate', (2,)), ('Sgate', (0,)), ('Rgate', (2,)), ('Kgate', (2,)), ('MZgate', (1, 2)), ('S2gate', (2, 1)), ('MZgate', (2, 0)), ('CKgate', (1, 0)), ('Rgate', (2,)), ('MZgate', (2, 0)), ('BSgate', (2, 1)), ('Kgate', (2,)), ('Sgate', (2,)), ('BSgate', (1, 2)), ('Rgate', (1,))]: with the opaque gates interpreted as fixed unitaries the compiled program [('Kgate', [2]), ('GaussianTransform', [0, 1, 2]), ('Kgate', [2]), ('GaussianTransform', [0, 1, 2]), ('Dgate', [0]), ('Dgate', [1]), ('CKgate', [1, 0]), ('GaussianTransform', [0, 2]), ('GaussianTransform', [1, 2]), ('Dgate', [0]), ('Dgate', [2]), ('Kgate', [2]), ('GaussianTransform', [1, 2]), ('Dgate', [1]), ('Dgate', [2]), ('MeasureFock', [0, 1, 2])] computes something else (max difference 0.9)")
+print("passive n=6 modes=[4, 2, 0, 5] gates=[('Rgate', (4,)), ('Rgate', (2,)), ('MZgate', (2, 5)), ('PassiveChannel', (4, 5, 2)), ('Interferometer', (4, 0)), ('Rgate', (2,)), ('Rgate', (5,)), ('BSgate', (5, 2)), ('MZgate', (4, 0)), ('BSgate', (2, 5)), ('Rgate', (4,)), ('Rgate', (5,)), ('Rgate', (5,)), ('BSgate', (0, 5)), ('BSgate', (2, 4)), ('MZgate', (0, 5))]: compiled program leaves a different Gaussian state (max difference 0.77)")
 print('REPLAY-VIOLATION')
 sys.exit(1)
